@@ -131,12 +131,24 @@ Definition retire_queue_stage (rpt : Z) (st : mgr) : mgr :=
         (m_atok st) (m_since st) (m_ppc st) (m_closed st) l
   else st.
 
+(** the entry of [pathProbing] that carries sequence number [seq] (the loop at the top of [add]) *)
+Fixpoint pfind (seq : Z) (p : list (Z * ncid)) : option ncid :=
+  match p with
+  | [] => None
+  | (_, e) :: r => if n_seq e =? seq then Some e else pfind seq r
+  end.
+
 (** [add] (without the limit check of [Add]) *)
 Definition mgr_add_inner (seq rpt : Z) (c : cid) (tok : Z) (draw : Z) (st : mgr) : mgr * rclass :=
   match m_acid st with
   | [] => (st, RProto)
   | _ =>
-    if (seq <? Z.max (m_active st) (m_hprobe st)) || (seq <? m_hretired st) then (emit st (EvRetire seq), ROk)
+    match pfind seq (m_probing st) with
+    | Some e =>       (* retransmission for an ID in use on a probing path: duplicate *)
+      if cid_eqb (n_cid e) c && (n_tok e =? tok) then (st, ROk) else (st, ROther)
+    | None =>
+    if negb (seq =? m_active st) &&
+       ((seq <? m_active st) || (seq <=? m_hprobe st) || (seq <? m_hretired st)) then (emit st (EvRetire seq), ROk)
     else
       let st2 := retire_queue_stage rpt (retire_probing_stage rpt st) in
       if seq =? m_active st2 then (st2, ROk) else
@@ -151,6 +163,7 @@ Definition mgr_add_inner (seq rpt : Z) (c : cid) (tok : Z) (draw : Z) (st : mgr)
           end
         else (st3, ROk)
       end
+    end
   end.
 
 Definition zlength {A} (l : list A) : Z := Z.of_nat (List.length l).
